@@ -179,7 +179,7 @@ def run(ctx, rep):
                 f.qual == "Blotter.complete_order" and cname == "_live_orders" and mut == "remove")
             rep.check(allowed, "R2", "%s() on %s in %s" % (mut, cname, key(f, c)), f, c,
                       "only __setitem__ (append) and complete_order (live list removal) may change the views")
-    rep.floor("R2", "writes to blotter containers", n_w, 18)
+    rep.floor("R2", "writes to blotter containers", n_w, 10)
     # the accessors hand out the index lists themselves (no copy when no filter is given): a caller that
     # mutates what it got changes the view of every later caller
     from sa.kinds import MUTATORS
